@@ -10,153 +10,9 @@ from .. import flow, own
 from ..flow import Paths
 
 PB_API = ("printbuf_memappend", "printbuf_memset", "sprintbuf", "printbuf_extend")
-LIBC_ALLOC = ("malloc", "calloc", "realloc", "strdup", "strndup")
 
 
-def may_null_functions(prog):
-    """library functions returning a pointer that may be NULL because an allocation failed:
-    least fixpoint of 'some return operand derives from an allocator / may-null function result'"""
-    mn = set(LIBC_ALLOC)
-    changed = True
-    while changed:
-        changed = False
-        for f in prog.all_functions():
-            if f.name in mn or not f.ret_type.endswith("*"):
-                continue
-            for i in f.instrs():
-                if i.op != "ret" or not i.ops:
-                    continue
-                if _derives_from_call(f, i.ops[0], mn, set()):
-                    mn.add(f.name)
-                    changed = True
-                    break
-    return mn
-
-
-def _derives_from_call(f, v, names, seen):
-    if v.kind != "reg" or v.v in seen:
-        return False
-    seen.add(v.v)
-    d = f.defs.get(v.v)
-    if d is None:
-        return False
-    if d.op == "call":
-        return d.callee in names
-    if d.op in ("bitcast", "phi", "select"):
-        ops = d.ops[1:] if d.op == "select" else d.ops
-        return any(_derives_from_call(f, o, names, seen) for o in ops)
-    return False
-
-
-def unguarded_deref_params(prog):
-    """(function name, param index) pairs where the parameter is dereferenced on some path that is not
-    behind a null test of it; closed over calls. libc sinks from a table."""
-    table = {("memcpy", 0), ("memcpy", 1), ("memmove", 0), ("memmove", 1), ("memset", 0), ("strlen", 0),
-             ("strcmp", 0), ("strcmp", 1), ("strncmp", 0), ("strncmp", 1), ("strcpy", 0), ("strcpy", 1),
-             ("strdup", 0), ("strchr", 0), ("strstr", 0), ("strstr", 1), ("memcmp", 0), ("memcmp", 1),
-             ("snprintf", 0), ("vsnprintf", 0), ("strcat", 0), ("strcat", 1), ("strtod", 0), ("strtoll", 0),
-             ("strtoull", 0), ("llvm.memcpy.p0i8.p0i8.i64", 0), ("llvm.memcpy.p0i8.p0i8.i64", 1),
-             ("llvm.memmove.p0i8.p0i8.i64", 0), ("llvm.memmove.p0i8.p0i8.i64", 1), ("llvm.memset.p0i8.i64", 0)}
-    res = set(table)
-    changed = True
-    while changed:
-        changed = False
-        for f in prog.all_functions():
-            for k, (t, nm) in enumerate(f.params):
-                if not t.endswith("*") or nm is None or (f.name, k) in res:
-                    continue
-                if _param_sinks(prog, f, nm, res):
-                    res.add((f.name, k))
-                    changed = True
-    return res
-
-
-def _maybe_null_regs(f, reg):
-    """registers that may carry the (possibly NULL) value of reg: through casts always, through a phi only
-    when the incoming edge is not already behind a non-null test of the value"""
-    cfg = cfg_of(f)
-    regs = {reg}
-    work = [reg]
-    while work:
-        r = work.pop()
-        for u in cfg.users(r):
-            if u.res is None or u.res in regs:
-                continue
-            if u.op in ("bitcast", "sext", "zext", "trunc"):
-                regs.add(u.res)
-                work.append(u.res)
-            elif u.op == "phi":
-                for v, lab in u.x["incoming"]:
-                    if v.kind == "reg" and v.v == r:
-                        pb = f.blocks[lab]
-                        if not _block_guarded(f, regs, pb):
-                            regs.add(u.res)
-                            work.append(u.res)
-                            break
-            elif u.op == "select" and any(o.kind == "reg" and o.v == r for o in u.ops[1:]):
-                regs.add(u.res)
-                work.append(u.res)
-    return regs
-
-
-def _block_guarded(f, regs, blk):
-    cfg = cfg_of(f)
-    for br, nn, nl in flow.null_tests(f, regs):
-        if nn is nl:
-            continue
-        if cfg.edge_dominates(br.block, nn, blk):
-            return True
-    return False
-
-
-def _deref_consumers(prog, f, reg, sinks):
-    """consumers of `reg`'s value that dereference it: yields (instr, regs, kind)"""
-    regs = _maybe_null_regs(f, reg)
-    cfg = cfg_of(f)
-    cons = [(u, r) for r in regs for u in cfg.users(r)]
-    for u, r in cons:
-        if u.op == "load" and u.ops[0].kind == "reg" and u.ops[0].v == r:
-            yield u, regs, "load"
-        elif u.op == "store" and u.ops[1].kind == "reg" and u.ops[1].v == r:
-            yield u, regs, "store"
-        elif u.op == "getelementptr" and u.ops[0].kind == "reg" and u.ops[0].v == r:
-            # address computation: a deref if the address is loaded/stored/passed to a sink
-            for uu, rr, kind in _gep_derefs(prog, f, u, sinks, 0):
-                yield uu, regs, kind
-        elif u.op == "call":
-            nm = u.callee
-            for ai, a in enumerate(u.ops):
-                if a.kind == "reg" and a.v == r and nm and (nm, ai) in sinks:
-                    yield u, regs, "arg%d of %s" % (ai, nm)
-        elif u.op in ("atomicrmw", "cmpxchg") and u.ops[0].kind == "reg" and u.ops[0].v == r:
-            yield u, regs, u.op
-
-
-def _gep_derefs(prog, f, gep, sinks, depth):
-    if depth > 6 or gep.res is None:
-        return
-    regs, cons = flow.derived_values(f, gep.res)
-    for u, r in cons:
-        if u.op == "load" and u.ops[0].kind == "reg" and u.ops[0].v == r:
-            yield u, r, "load"
-        elif u.op == "store" and u.ops[1].kind == "reg" and u.ops[1].v == r:
-            yield u, r, "store"
-        elif u.op == "getelementptr" and u.ops[0].kind == "reg" and u.ops[0].v == r:
-            yield from _gep_derefs(prog, f, u, sinks, depth + 1)
-        elif u.op == "call":
-            nm = u.callee
-            for ai, a in enumerate(u.ops):
-                if a.kind == "reg" and a.v == r and nm and (nm, ai) in sinks:
-                    yield u, r, "arg%d of %s" % (ai, nm)
-        elif u.op in ("atomicrmw", "cmpxchg") and u.ops[0].kind == "reg" and u.ops[0].v == r:
-            yield u, r, u.op
-
-
-def _param_sinks(prog, f, pname, sinks):
-    for u, regs, kind in _deref_consumers(prog, f, pname, sinks):
-        if not flow.guarded_nonnull(f, regs, u):
-            return True
-    return False
+from ..nullflow import may_null_functions, unguarded_deref_params, deref_consumers as _deref_consumers, LIBC_ALLOC
 
 
 def run(chk):
